@@ -8,6 +8,10 @@ CHECKS = {
    technique="TLA+ spec RingOps (contract table + exact toy-ring semantics + BigNat certificates): TLC checks the spec's ring laws, then validates traces recorded from package ring",
    text="TLC model-checks the algebra of the specification (negacyclic product, monomials, automorphisms, evaluation homomorphism, conjugate-invariant embedding) on Z_17[X]/(X^8+1); every method of the 44-entry contract table, NTT/INTT (standard and conjugate-invariant, lazy and not), automorphisms in and out of the NTT domain, monomial products and Horner evaluation are executed on the real ring.Ring/SubRing with boundary patterns on toy rings (TLC computes the exact expectation and the documented output range) and at 6..61-bit primes (per-coefficient big-number certificates checked by TLC).",
    note="Trusted: TLC, the contract table transcribed from doc comments (spec/tables/ringops.json), math/big for witnesses' inputs (witnesses themselves are re-checked). Exhaustive only over patterns, not all values; real-size NTT checked through round trips and the product homomorphism against a math/big negacyclic product."),
+ "C02": dict(spec="RnsScaling / RnsScalingMC / RnsScalingTrace / BigNat", design="DESIGN.md §5 C02",
+   technique="TLA+ spec RnsScaling (integer meaning of rescaling, basis extension, mod-down): TLC sanity-checks the definitions exhaustively, then validates traces of package ring and rlwe.Evaluator.ModDown (toy chains: all values; real size: BigNat inequalities)",
+   text="TLC exhausts the definitions on a toy chain (rounding is nearest, floor is floor, iterated division composes, exact answers are accepted); the real DivRound/DivFloor(ByLastModulus)[Many][NTT], ModUpQtoP/PtoQ, ModDownQPtoQ[NTT]/QPtoP, ExtendBasisSmallNormAndCenter and rlwe.Evaluator.ModDown run on toy chains for every value of [0,Q) / [0,QP), every (levelQ, levelP) and every number of rescalings (TLC computes the expectation), and on 25..61-bit chains at quotient boundaries (k*q+-3, k*q+q/2+-3, Q/2, Q/4), where TLC checks the defining inequalities on CRT-reconstructed integers.",
+   note="Trusted: TLC, the RnsScaling specification, math/big CRT reconstruction in the harness (quotient witnesses are re-checked). Decomposer digits are covered functionally by C04."),
  "C05": dict(spec="IntEval / IntEvalGen / IntEvalTrace", design="DESIGN.md §5 C05",
    technique="TLA+ spec IntEval: TLC exhaustive + simulated program generation, replay on bgv.Evaluator, TLC trace validation of the recorded run",
    text="TLC checks the evaluator specification (value/scale/level/degree/error rules with the raw=m*scale refinement invariant DecodeExact) exhaustively on a small instance; every behaviour TLC generates (all depth-2/3 programs over small pools, thousands of simulated longer programs over all operand kinds, levels, scales, both modes, three key configurations) is executed on the real bgv.Evaluator and the recorded trace (decrypted raw slots, scale, level, degree, error/panic) must be a behaviour of the specification.",
